@@ -1593,6 +1593,17 @@ class Interp:
         return self.apply_contract_env(c, env, node, fr)
 
     def apply_contract_env(self, c, env, node, fr):
+        # a caller may use a declared SUMMARY of a callee instead of the callee's full contract (dsl: views={callee: Contract}):
+        # weaker postconditions, and preconditions the caller cannot establish are replaced by an explicit assumption that is
+        # listed in the evidence (A-VIEW).  The summary's ensures must follow from the callee's contract (reviewed by hand).
+        f0 = fr
+        while f0 is not None and f0.contract is None:
+            f0 = f0.parent
+        views = getattr(f0.contract, 'views', None) if f0 is not None else None
+        if views and c.key in views:
+            v = views[c.key]
+            self.assumed.add(f'A-VIEW: {short_key(f0.contract.key)} uses a summary of {short_key(c.key)}: {v.trusted}')
+            c = v
         callee = short_key(c.key)
         if self.mode == 'quant':
             # inside a comprehension element: only calls whose result is a specification expression
